@@ -22,20 +22,43 @@ INSTANTS = [  # rank = index + 1, canonical RFC3339Nano spelling (UTC), strictly
 # other spellings of the same instants (other zones) used in query texts and for some stored anchors
 ALT_SPELLINGS = {2: "2020-01-01T02:00:00+02:00", 4: "2020-06-01T05:30:00.5-07:00"}
 
-STR = ["/u", "/v", "a", "b", "c", "p", "q", "r", "ab", "B", "_", "s"]  # index+1 = string id
+STR = ["/u", "/v", "a", "b", "c", "p", "q", "r", "ab", "B", "_", "s",
+       "/_", "v", "_subject", "_predicate", "_object", "n"]  # index+1 = string id
 
 
 def sid(s):
     return STR.index(s) + 1
 
 
-NODES = [("/u", "a"), ("/u", "b"), ("/v", "a"), ("/u", "c"), ("/v", "ab")]
+NODES = [("/u", "a"), ("/u", "b"), ("/v", "a"), ("/u", "c"), ("/v", "ab"), ("/_", "v")]  # 6 = what '_:v' denotes
 PREDS = [  # (id, tmp, rank[, stored spelling of the anchor])
     ("p", False, 0), ("p", True, 2), ("p", True, 4), ("q", False, 0), ("q", True, 2), ("q", True, 6),
     ("r", True, 1), ("r", False, 0), ("p", True, 1), ("a", False, 0), ("a", True, 2),
     ("s", True, 2, "2020-01-01T02:00:00+02:00"),  # 12: stored with a +02:00 anchor
     ("s", True, 3), ("s", True, 5), ("s", True, 6),  # 13, 14, 15
 ]
+
+
+# closure: every (identifier, immutable | instant) a CONSTRUCT template can build, after the first
+# 15 hand-picked entries (indices of those stay stable)
+_have = {(e[0], e[1], e[2]) for e in PREDS}
+for _id in ["p", "q", "r", "a", "s", "n", "_subject", "_predicate", "_object"]:
+    for _n in range(0, len(INSTANTS) + 1):
+        _k = (_id, _n > 0, _n)
+        if _k not in _have:
+            PREDS.append(_k)
+            _have.add(_k)
+
+
+def pred_index(pid, n):
+    """index (1-based) of the canonical predicate with identifier pid at instant rank n (0 = immutable)"""
+    for i, e in enumerate(PREDS):
+        if e[0] == pid and e[2] == n and e[1] == (n > 0) and len(e) == 3:
+            return i + 1
+    for i, e in enumerate(PREDS):
+        if e[0] == pid and e[2] == n and e[1] == (n > 0):
+            return i + 1
+    raise KeyError((pid, n))
 
 
 def pred_anchor(i):
@@ -192,6 +215,9 @@ def bqlu_tla():
         "STRPR == %s" % tla_val(strpr),
         "NSTR == %d" % len(STR),
         "NINST == %d" % len(INSTANTS),
+        "STRID_SUBJECT == %d" % sid("_subject"),
+        "STRID_PREDICATE == %d" % sid("_predicate"),
+        "STRID_OBJECT == %d" % sid("_object"),
         "====", ""])
 
 
